@@ -399,5 +399,5 @@ TRUSTED = [
     "numpy basic slicing / roll / reshape semantics as modelled in Rearrange.v",
 ]
 PROVED = ["see coq/props/Prop_C09.v (theorem list in obligation_list)"]
-VALIDATED = ["2-D/3-D block kernels: generated kernel == N-D closed form only by correspondence (1-D proved)",
+VALIDATED = [
              "util.resize/flip/circshift/downsample/upsample: model == implementation by correspondence"]
